@@ -59,6 +59,7 @@ type vr struct {
 	global bool
 	lvl    int
 	iv     *ivl // read-only ints with a tighter interval (loop counters)
+	mayNil bool // declared without a value
 }
 
 type fn struct {
@@ -148,6 +149,7 @@ type gen struct {
 	loops    []*loopCtx
 	swDepth  int
 	budget   int // statements left in the current function
+	forceDecl int
 
 	feat     map[string]bool
 	useInl   map[string]bool
@@ -597,6 +599,9 @@ func (g *gen) intExpr(d int) (string, ivl) {
 					// negative counts fail on both sides (uncatchable in NeoVM)
 					cnt = fmt.Sprintf("(%s %% 8)", v.name)
 					kmax = 7
+					// an untyped constant as the left operand of a non-constant shift
+					// would take its type from the context
+					a = "int(" + a + ")"
 					g.cur.unc, g.cur.mayPanic = true, true
 					g.f("shift-var-count")
 				}
@@ -646,7 +651,7 @@ func (g *gen) intExpr(d int) (string, ivl) {
 			}
 			t := []ty{tInts, tBytes}[g.r.Intn(2)]
 			v := g.pick(t, false)
-			if v == nil {
+			if v == nil || v.mayNil {
 				continue
 			}
 			iv := g.pick(tInt, false)
@@ -723,8 +728,8 @@ func (g *gen) boolExpr(d int) string {
 var strLits = []string{"", "a", "b", "ab", "neo", "go", "key", "x1", "hello", "Zz", "0", " "}
 
 // strExpr returns a string expression and a bound of its length. Results of
-// `+` are re-sliced (`(a + b)[0:]`), see the directed case
-// "string-concat-compare".
+// `+` go through norm (a re-slice inside a function), see the directed cases
+// "string-concatenation-then-equality" and "slice-of-constant-string".
 func (g *gen) strExpr(d int) (string, int) {
 	for try := 0; try < 4; try++ {
 		switch g.r.Intn(8) {
@@ -745,7 +750,7 @@ func (g *gen) strExpr(d int) (string, int) {
 				continue
 			}
 			g.f("string-concat")
-			return fmt.Sprintf("(%s + %s)[0:]", a, b), la + lb
+			return fmt.Sprintf("norm(%s + %s)", a, b), la + lb
 		case 6:
 			if g.noHeap {
 				continue
@@ -819,7 +824,7 @@ func (g *gen) block(n, depth int) {
 	g.lvl++
 	sv := len(g.scope)
 	g.ind++
-	for i := 0; i < n && g.budget > 0; i++ {
+	for i := 0; i < n && (i == 0 || g.budget > 0); i++ {
 		g.stmt(depth)
 	}
 	g.ind--
@@ -849,11 +854,14 @@ func (g *gen) declLocal(depth int) {
 	restore := g.exprMode()
 	defer restore()
 	name := g.fresh("v")
-	// deliberate shadowing of an outer integer
+	shadows := false
+	// deliberate shadowing of an outer integer (with `:=` only, see the directed
+	// case "shadowing-var-declaration-reads-outer-variable")
 	if g.lvl > 1 && g.r.Intn(5) == 0 {
 		for _, v := range g.visible(tInt, true) {
 			if v.lvl < g.lvl && !v.global && !v.ro && v.name != "acc" {
 				name = v.name
+				shadows = true
 				g.f("shadowing")
 				break
 			}
@@ -861,15 +869,21 @@ func (g *gen) declLocal(depth int) {
 		for _, v := range g.scope {
 			if v.name == name && v.lvl == g.lvl {
 				name = g.fresh("v")
+				shadows = false
 			}
 		}
 	}
-	switch g.r.Intn(14) {
+	kind := g.r.Intn(14)
+	if g.forceDecl > 0 {
+		kind = g.forceDecl
+		g.forceDecl = 0
+	}
+	switch kind {
 	case 0, 1, 2, 3, 4:
 		b := intBounds[g.r.Intn(len(intBounds))]
 		e, iv := g.intExpr(2)
 		e, _ = fit(e, iv, b)
-		if g.r.Intn(4) == 0 {
+		if g.r.Intn(4) == 0 && !shadows {
 			g.w("var %s int = %s", name, e)
 		} else {
 			g.w("%s := %s", name, e)
@@ -895,14 +909,15 @@ func (g *gen) declLocal(depth int) {
 		g.push(&vr{name: name, t: tStr})
 	case 9:
 		n := 0
+		isNil := false
 		switch g.r.Intn(4) {
 		case 0:
 			n = 1 + g.r.Intn(4)
 			g.w("%s := make([]byte, %d)", name, n)
 			g.f("make-bytes")
 		case 1:
-			g.w("var %s []byte", name)
-			g.f("nil-slice")
+			// nil byte slices: see the directed case "nil-slice-operations"
+			g.w("%s := []byte{}", name)
 		case 2:
 			if s := g.pick(tStr, false); s != nil {
 				g.w("%s := []byte(%s)", name, s.name)
@@ -919,10 +934,11 @@ func (g *gen) declLocal(depth int) {
 			g.w("%s := %s", name, l)
 		}
 		g.w("_ = %s", name)
-		g.push(&vr{name: name, t: tBytes, minLen: n})
+		g.push(&vr{name: name, t: tBytes, minLen: n, mayNil: isNil})
 	case 10, 11:
 		b := intBounds[g.r.Intn(len(intBounds))]
 		n := 0
+		isNil := false
 		switch g.r.Intn(4) {
 		case 0:
 			n = 1 + g.r.Intn(4)
@@ -931,13 +947,14 @@ func (g *gen) declLocal(depth int) {
 		case 1:
 			g.w("var %s []int", name)
 			g.f("nil-slice")
+			isNil = true
 		default:
 			l := g.intsLit(1, b)
 			n = strings.Count(l, ",") + 1
 			g.w("%s := %s", name, l)
 		}
 		g.w("_ = %s", name)
-		g.push(&vr{name: name, t: tInts, bound: b, minLen: n})
+		g.push(&vr{name: name, t: tInts, bound: b, minLen: n, mayNil: isNil})
 	case 12:
 		b := intBounds[g.r.Intn(len(intBounds))]
 		if g.r.Bool() {
@@ -980,7 +997,34 @@ func (g *gen) declLocal(depth int) {
 func (g *gen) assign(depth int) {
 	restore := g.exprMode()
 	defer restore()
-	switch g.r.Intn(16) {
+	has := func(t ty) bool { return len(g.visible(t, false)) > 0 }
+	var cand []int
+	for _, c := range []int{0, 1, 2, 3, 4, 5, 6, 14} {
+		cand = append(cand, c)
+	}
+	if has(tBool) {
+		cand = append(cand, 7)
+	}
+	if has(tStr) {
+		cand = append(cand, 8, 8)
+	}
+	if !g.noHeap {
+		if has(tInts) {
+			cand = append(cand, 9, 9, 13, 13)
+		}
+		if has(tBytes) {
+			cand = append(cand, 10, 10, 13, 15)
+		}
+		if has(tMapII) || has(tMapSI) {
+			cand = append(cand, 11, 11, 15)
+		}
+		if has(tPtr) {
+			cand = append(cand, 12, 12, 16, 16)
+		}
+	}
+	switch cand[g.r.Intn(len(cand))] {
+	case 16:
+		g.methodCall()
 	case 0, 1, 2, 3:
 		v := g.pick(tInt, true)
 		if v == nil {
@@ -1123,8 +1167,14 @@ func (g *gen) assign(depth int) {
 			e, iv := g.intExpr(1)
 			e, _ = fit(e, iv, v.bound)
 			if g.r.Intn(3) == 0 {
+				// several elements: the operands must not read the slice, see the
+				// directed case "append-of-several-elements-reading-the-slice"
+				g.noHeap = true
+				e, iv = g.intExpr(1)
+				e, _ = fit(e, iv, v.bound)
 				e2, iv2 := g.intExpr(0)
 				e2, _ = fit(e2, iv2, v.bound)
+				g.noHeap = false
 				e += ", " + e2
 			}
 			g.w("if len(%s) < %d {", v.name, sliceMx)
@@ -1163,7 +1213,8 @@ func (g *gen) assign(depth int) {
 			if g.r.Bool() {
 				g.w("%s[(%s %% 4) + 100] = %d", v.name, k, g.r.Intn(50))
 			}
-		} else if d, s := g.pick(tBytes, false), g.pick(tBytes, false); d != nil && s != nil && !d.ro {
+		} else if d, s := g.pick(tBytes, false), g.pick(tBytes, false); d != nil && s != nil && !d.ro && !d.mayNil && !s.mayNil {
+			// copy with a nil operand: see the directed case "copy-with-nil-slice"
 			n := g.fresh("n")
 			g.f("copy")
 			g.markImpure(d)
@@ -1434,11 +1485,29 @@ func (g *gen) switchStmt(depth int) {
 	restore()
 	g.r.Shuffle(len(cases), func(i, j int) { cases[i], cases[j] = cases[j], cases[i] })
 	cases = cases[:2+g.r.Intn(len(cases)-1)]
+	if kind == 2 {
+		// cases that are not constants are evaluated in order: `default` goes
+		// last, see the directed case "switch-early-default-swap:case-order"
+		for i, c := range cases {
+			if c == "default:" {
+				cases = append(append(cases[:i:i], cases[i+1:]...), c)
+				break
+			}
+		}
+	}
+	// fallthrough only when `default` is the last clause or absent: see the
+	// directed case "fallthrough-with-early-default"
+	ft := true
+	for i, c := range cases {
+		if c == "default:" && i != len(cases)-1 {
+			ft = false
+		}
+	}
 	g.swDepth++
 	for i, c := range cases {
 		g.w("%s", c)
 		g.block(1+g.r.Intn(2), depth-1)
-		if i < len(cases)-1 && g.r.Intn(5) == 0 {
+		if ft && i < len(cases)-1 && g.r.Intn(4) == 0 {
 			g.w("\tfallthrough")
 			g.f("fallthrough")
 		}
@@ -1540,12 +1609,40 @@ func (g *gen) callStmt(depth int) {
 	}
 }
 
+// methodCall calls a method of a visible struct pointer.
+func (g *gen) methodCall() {
+	on, op := g.noHeap, g.pureOnly
+	g.noHeap, g.pureOnly = true, false
+	defer func() { g.noHeap, g.pureOnly = on, op }()
+	for _, p := range g.visible(tPtr, false) {
+		fs := g.callable(func(f *fn) bool { return f.recv == p.st })
+		if len(fs) == 0 {
+			continue
+		}
+		f := fs[g.r.Intn(len(fs))]
+		a, _ := g.args(f, 1)
+		g.markImpure(p)
+		g.noteCall(f)
+		g.f("method-call")
+		if len(f.rets) == 0 {
+			g.w("%s.%s(%s)", p.name, f.name, a)
+			return
+		}
+		n := g.fresh("r")
+		g.w("%s := %s.%s(%s)", n, p.name, f.name, a)
+		g.w("_ = %s", n)
+		g.push(&vr{name: n, t: f.rets[0], bound: f.retBound})
+		return
+	}
+}
+
 func (g *gen) panicStmt() {
 	if g.noPanic {
 		return
 	}
 	restore := g.exprMode()
-	c := g.cond(1)
+	e, _ := g.intExpr(1)
+	c := fmt.Sprintf("%s%%%d == %d", e, 3+g.r.Intn(5), g.r.Intn(3))
 	restore()
 	g.cur.mayPanic = true
 	g.f("explicit-panic")
@@ -1602,12 +1699,17 @@ func (g *gen) ret(early bool) {
 			e, _ = fit(e, ivl{-capAdd * 2, capAdd * 2}, f.retBound)
 			vals = append(vals, e)
 		case tBool:
-			if g.hasDefer {
+			if g.hasDefer || early {
 				vals = append(vals, "acc%2 == 0")
 			} else {
-				vals = append(vals, g.boolExpr(1))
+				vals = append(vals, fmt.Sprintf("(acc%%2 == 0) != (%s)", g.boolExpr(1)))
 			}
 		case tStr:
+			if !early && len(f.rets) == 1 {
+				g.w("if acc%%3 == 0 {")
+				g.w("\treturn %q", strLits[1+g.r.Intn(len(strLits)-1)])
+				g.w("}")
+			}
 			if v := g.pick(tStr, false); v != nil && (g.hasDefer || g.r.Bool()) {
 				vals = append(vals, v.name)
 			} else if g.hasDefer {
@@ -1617,16 +1719,18 @@ func (g *gen) ret(early bool) {
 				vals = append(vals, clip(e, l))
 			}
 		case tBytes:
-			if v := g.pick(tBytes, false); v != nil && !v.global {
+			if v := g.pick(tBytes, false); v != nil && !v.global && g.r.Bool() {
 				vals = append(vals, v.name)
 			} else {
-				vals = append(vals, g.bytesLit())
+				vals = append(vals, "[]byte{byte((acc%128 + 128) % 128), byte((acc/128%128 + 128) % 128), 7}")
 			}
 		case tInts:
-			if v := g.pick(tInts, false); v != nil && !v.global && v.bound <= f.retBound {
+			if v := g.pick(tInts, false); v != nil && !v.global && g.r.Bool() {
 				vals = append(vals, v.name)
+			} else if w := g.pick(tInt, false); w != nil && !w.global {
+				vals = append(vals, fmt.Sprintf("[]int{acc, %s, %d}", w.name, g.r.Intn(100)))
 			} else {
-				vals = append(vals, g.intsLit(1, 100))
+				vals = append(vals, "[]int{acc}")
 			}
 		}
 	}
@@ -1726,6 +1830,10 @@ func (g *gen) foldVar(acc, v *vr) {
 // ---------------------------------------------------------------- functions
 
 const prelude = `
+func norm(s string) string {
+	return s[0:]
+}
+
 func clip(s string) string {
 	if len(s) > 24 {
 		return s[:24]
@@ -1804,7 +1912,12 @@ func (g *gen) genFunc(p fnPlan) {
 	}
 	g.lvl = 1
 	g.hasDefer = p.deferKind > 0
-	g.noUnc = p.recovers || p.deferKind > 0 && false
+	g.noUnc = p.recovers
+	// a defer without recover must not see a panic pass: see the directed case
+	// "defer-without-recover-lets-panic-through"
+	savedNoPanic := g.noPanic
+	g.noPanic = g.noPanic || p.deferKind == 3
+	defer func() { g.noPanic = savedNoPanic }()
 	f.recovers = p.recovers
 	g.loops = nil
 	g.budget = p.stmts
@@ -1832,9 +1945,19 @@ func (g *gen) genFunc(p fnPlan) {
 		e, iv := g.intExpr(1)
 		e, _ = fit(e, iv, accB)
 		g.w("acc := %s", e)
+		g.w("_ = acc")
 		restore()
 	}
 	g.push(&vr{name: "acc", t: tInt, bound: accB})
+	if !g.noCalls {
+		// a few composite locals up front so that later statements have something to work on
+		for _, k := range []int{7, 9, 10, 12, 13} {
+			if g.r.Intn(5) < 2 {
+				g.forceDecl = k
+				g.declLocal(0)
+			}
+		}
+	}
 	switch p.deferKind {
 	case 1:
 		// lambda touching globals only (closures are outside the dialect)
@@ -2023,6 +2146,18 @@ func genProgram(idx int, tuples int) *program {
 	g.noPanic = true
 	g.noCalls = true
 	pure := &fn{name: "pure0", params: []*vr{{name: "a", t: tInt, bound: 1 << 31}, {name: "b", t: tInt, bound: 1 << 31}}, rets: []ty{tInt}, retBound: modBig - 1}
+	// pure0 sees no package state: it runs inside initialisers
+	pureBuf := func() string {
+		saved := g.sb
+		g.sb = strings.Builder{}
+		g.genFunc(fnPlan{f: pure, stmts: 2 + r.Intn(3), depth: 1})
+		out := g.sb.String()
+		g.sb = saved
+		return out
+	}()
+	pure.impure = false
+	g.funcs = append(g.funcs, pure)
+	g.noCalls = false
 	ng := 2 + r.Intn(4)
 	for i := range ng {
 		name := fmt.Sprintf("g%d", i)
@@ -2078,16 +2213,12 @@ func genProgram(idx int, tuples int) *program {
 	g.w("}")
 	g.w("")
 	g.globals = append(g.globals, &vr{name: "glog", t: tInt, bound: modBig - 1, global: true, ro: true})
+	g.sb.WriteString(pureBuf)
 	noteFn := &fn{name: "note", params: []*vr{{name: "d", t: tInt, bound: 9}}, impure: true}
 
-	// pure0
-	g.genFunc(fnPlan{f: pure, stmts: 2 + r.Intn(3), depth: 1})
-	pure.impure = false
-	g.funcs = append(g.funcs, pure)
-	g.noCalls = false
-
 	// init functions
-	for range r.Intn(3) {
+	// one init function at most: see the directed case "two-init-functions"
+	for range r.Intn(2) {
 		p.hasInit = true
 		g.f("init-func")
 		k := len(resetLines)
@@ -2104,6 +2235,20 @@ func genProgram(idx int, tuples int) *program {
 	g.noPanic = false
 	g.funcs = append(g.funcs, noteFn)
 
+	// ---- methods
+	if len(g.structs) > 0 {
+		for i := range 1 + r.Intn(2) {
+			f := &fn{name: fmt.Sprintf("m%d", i), recv: g.structs[0], retBound: modBig - 1, rets: []ty{tInt},
+				params: []*vr{{name: "a0", t: tInt, bound: 1 << 31}}}
+			if r.Intn(3) == 0 {
+				f.rets = nil
+			}
+			g.genFunc(fnPlan{f: f, stmts: 2 + r.Intn(4), depth: 1})
+			f.impure = true
+			g.funcs = append(g.funcs, f)
+			p.funcs = append(p.funcs, f)
+		}
+	}
 	// ---- helpers
 	nh := 2 + r.Intn(4)
 	for i := 0; i < nh; i++ {
@@ -2150,6 +2295,9 @@ func genProgram(idx int, tuples int) *program {
 		case 0:
 			if len(f.rets) == 1 && f.rets[0] == tInt {
 				plan.recursive = true
+				for _, a := range f.params {
+					*a = vr{name: a.name, t: tInt, bound: 1 << 31}
+				}
 				f.params[0].bound = 6
 				f.params[0].ro = true
 			}
@@ -2162,20 +2310,6 @@ func genProgram(idx int, tuples int) *program {
 		g.genFunc(plan) // f is not callable from its own body except for the planned descent
 		g.funcs = append(g.funcs, f)
 		p.funcs = append(p.funcs, f)
-	}
-	// ---- methods
-	if len(g.structs) > 0 {
-		for i := range 1 + r.Intn(2) {
-			f := &fn{name: fmt.Sprintf("m%d", i), recv: g.structs[0], retBound: modBig - 1, rets: []ty{tInt},
-				params: []*vr{{name: "a0", t: tInt, bound: 1 << 31}}}
-			if r.Intn(3) == 0 {
-				f.rets = nil
-			}
-			g.genFunc(fnPlan{f: f, stmts: 2 + r.Intn(4), depth: 1})
-			f.impure = true
-			g.funcs = append(g.funcs, f)
-			p.funcs = append(p.funcs, f)
-		}
 	}
 	// ---- exported functions
 	ne := 2 + r.Intn(2)
@@ -2205,24 +2339,11 @@ func genProgram(idx int, tuples int) *program {
 	p.funcs = append(p.funcs, pure)
 
 	// ---- assemble the file
-	var hdr strings.Builder
-	fmt.Fprintf(&hdr, "package %s\n\n", pkg)
-	if len(g.useInl) > 0 {
-		hdr.WriteString("import (\n")
-		paths := map[string]string{"inl": inlPath, "inlc": inlPath + "/c", "inld": inlPath + "/d"}
-		var ks []string
-		for k := range g.useInl {
-			ks = append(ks, k)
-		}
-		sort.Strings(ks)
-		for _, k := range ks {
-			fmt.Fprintf(&hdr, "\t%s %q\n", k, paths[k])
-		}
-		hdr.WriteString(")\n\n")
-	}
-	p.src = hdr.String() + g.sb.String() + prelude
+	body := g.sb.String() + prelude
+	reset := "// ResetGlobals re-runs package initialisation (native side only).\nfunc ResetGlobals() {\n\t" + strings.Join(resetLines, "\n\t") + "\n}\n"
+	p.src = fmt.Sprintf("package %s\n\n", pkg) + importsFor(body) + body
+	p.reset = fmt.Sprintf("package %s\n\n", pkg) + importsFor(reset) + reset
 	p.locate()
-	p.reset = fmt.Sprintf("package %s\n\n// ResetGlobals re-runs package initialisation (native side only).\nfunc ResetGlobals() {\n\t%s\n}\n", pkg, strings.Join(resetLines, "\n\t"))
 	for k := range g.feat {
 		p.feat = append(p.feat, k)
 	}
@@ -2282,4 +2403,18 @@ func (g *gen) nonConstBool() string {
 		}
 	}
 	return "acc%2 == 0"
+}
+
+// importsFor returns the import block for the inlined helper packages text uses.
+func importsFor(text string) string {
+	var l []string
+	for _, k := range [][2]string{{"inl", inlPath}, {"inlc", inlPath + "/c"}, {"inld", inlPath + "/d"}} {
+		if strings.Contains(text, k[0]+".") {
+			l = append(l, fmt.Sprintf("\t%s %q\n", k[0], k[1]))
+		}
+	}
+	if len(l) == 0 {
+		return ""
+	}
+	return "import (\n" + strings.Join(l, "") + ")\n\n"
 }
